@@ -5,6 +5,7 @@ import (
 	"encoding/json"
 	"fmt"
 	"os"
+	"os/exec"
 	"path/filepath"
 	"strings"
 )
@@ -169,6 +170,57 @@ func selftest(o options, seeds int) int {
 			die(2, "selftest: a suggestion list assembled by ranging over a map was NOT reported within 400 sessions")
 		}
 		logf("selftest: map-order seam fires on the probe (%s)", st.Violations[0].Class)
+	}
+	// ---- sensitivity: process-level randomness (hash/maphash seam + process seed) ----
+	probe3 := func(dir string) error {
+		p := filepath.Join(dir, "validator", "suggestionList.go")
+		b, err := os.ReadFile(p)
+		if err != nil {
+			return err
+		}
+		src := string(b)
+		const anchor = "return optionsByDistance[results[i]] < optionsByDistance[results[j]]"
+		const imp = "import (\n"
+		if !strings.Contains(src, anchor) || !strings.Contains(src, imp) {
+			return fmt.Errorf("anchor not found")
+		}
+		// ties ranked by a hash under a seed drawn once per process: stable inside
+		// any one process, different between processes
+		src = strings.Replace(src, anchor, "if optionsByDistance[results[i]] != optionsByDistance[results[j]] {\n\t\t\t"+anchor+"\n\t\t}\n\t\treturn maphash.String(verifSelftestSeed, results[i]) < maphash.String(verifSelftestSeed, results[j])", 1)
+		src = strings.Replace(src, imp, imp+"\t\"hash/maphash\"\n", 1) + "\nvar verifSelftestSeed = maphash.MakeSeed()\n"
+		return os.WriteFile(p, []byte(src), 0o644)
+	}
+	pb := prepareMutated(prepOpts{instrumented: true, name: "procseed-probe"}, probe3)
+	if pb == nil {
+		skipped = append(skipped, "process-seed probe (anchor in validator/suggestionList.go not found)")
+	} else {
+		// one document with a two-way suggestion tie, evaluated alone in two fresh
+		// processes that differ in nothing but VERIF_PROCSEED
+		key := `{"kind":"V","schema_name":"s","schema":"type Query { age: Int ago: Int }","doc":"{ ag }","obs_key":"V|0|0"}`
+		eval := func(seed string) string {
+			cmd := exec.Command(pb.bin, "c10-one")
+			cmd.Stdin = strings.NewReader(key)
+			cmd.Env = append(os.Environ(), "VERIF_PROCSEED="+seed)
+			b, _ := cmd.Output()
+			return string(b)
+		}
+		base := eval("0")
+		if !strings.Contains(base, "Did you mean") {
+			die(2, "selftest: process-seed probe produced no suggestion: %s", base)
+		}
+		if again := eval("0"); again != base {
+			die(2, "selftest: two processes with the SAME process seed disagree: the hash/maphash stand-in is not deterministic")
+		}
+		differs := 0
+		for _, ps := range []string{"1", "2", "3", "5", "8", "13"} {
+			if eval(ps) != base {
+				differs++
+			}
+		}
+		if differs == 0 {
+			die(2, "selftest: a suggestion tie ranked by a per-process maphash seed did NOT differ between processes with different VERIF_PROCSEED: the process-level randomness seam is not in effect")
+		}
+		logf("selftest: process-seed seam fires on the probe (%d of 6 other process seeds give another result; same seed repeats)", differs)
 	}
 	for _, s := range skipped {
 		logf("selftest: skipped %s", s)
